@@ -221,6 +221,46 @@ def one(ctx, y, yh, x, family):
     ctx.count(family, n=n, nontrivial_key=nontriv, sample=dict(y=y.tolist()[:8], y_hat=yh.tolist()[:8], smape=float(M.smape(y, yh))))
 
 
+@core.safe_case
+def int_same(ctx, y, yh, x, family):
+    """integral vectors are also raw counts: every metric / fit helper must give the same value for the int64 arrays as for the float64 ones
+    (values already tied to their definitions by `one`); byte-count sized entries (k * 2^33) make squares exceed 2^63 in the input's own dtype"""
+    import kneeliverse.metrics as M
+    import kneeliverse.linear_fit as lf
+    n = len(y)
+    case = dict(y=y.tolist(), y_hat=yh.tolist(), x=x.tolist(), int_dtype=True)
+    # the observed values are raw counts (int64); the predicted values stay float64, as every fitted line of the package produces them.  (Two
+    # int64 vectors with byte-count sized entries wrap around in the pinned `np.square(y - y_hat)`: int64 predictions are not a use the package has.)
+    small = float(max(np.max(np.abs(y)), np.max(np.abs(yh)))) < 2 ** 20 if n else True
+    yi, yhi, xi = y.astype(np.int64), (yh.astype(np.int64) if small and ctx.rng.random() < 0.5 else yh), x.astype(np.int64)
+    table = [('metrics.' + nm, getattr(M, nm), (y, yh), (yi, yhi)) for nm in ('residuals', 'rmse', 'rmsle', 'rmspe', 'rpd', 'smape', 'r2')]
+    if n >= 3:
+        table.append(('metrics.r2[adjusted]', lambda a, b: M.r2(a, b, M.R2.adjusted), (y, yh), (yi, yhi)))
+    if n >= 2 and x[-1] != x[0]:
+        pf, pi = np.column_stack([x, y]), np.column_stack([xi, yi])
+        cf = lf.linear_fit_points(pf)
+        table += [('linear_fit.linear_fit_points', lf.linear_fit_points, (pf,), (pi,)), ('linear_fit.linear_transform', lambda a: lf.linear_transform(a, cf), (x,), (xi,))]
+        for nm in ('linear_r2_points', 'rmspe_points', 'rmsle_points', 'smape_points', 'rpd_points', 'rmse_points', 'linear_residuals_points'):
+            table.append(('linear_fit.' + nm, lambda a, nm=nm: getattr(lf, nm)(a, cf), (pf,), (pi,)))
+        table += [('linear_fit.linear_fit_residuals_points', lf.linear_fit_residuals_points, (pf,), (pi,)), ('linear_fit.r2_points', lf.r2_points, (pf,), (pi,)),
+                  ('linear_fit.linear_fit_transform_points', lf.linear_fit_transform_points, (pf,), (pi,))]
+    for site, f, af, ai in table:
+        try:
+            vf = np.asarray(f(*af), float)
+        except Exception:
+            continue                                   # the float64 call is judged by `one`
+        try:
+            vi = np.asarray(f(*ai), float)
+        except Exception as e:
+            ctx.fail('predicate', 'completes-on-the-int64-representation', site, case, repr(e)[:200])
+            continue
+        ctx.corr_checked += 1
+        ok = vf.shape == vi.shape and np.all((vf == vi) | (np.isnan(vf) & np.isnan(vi)) | (np.abs(vf - vi) <= 1e-9 * (np.abs(vf) + np.abs(vi)) + 1e-300))
+        if not ok:
+            ctx.fail('predicate', 'integer-dtype-gives-the-same-value', site, case, dict(int64=vi.tolist(), float64=vf.tolist()))
+    ctx.count(family + '@int64', n=n, nontrivial_key=('int', y.tobytes(), yh.tobytes()) if not np.array_equal(y, yh) else None, sample=dict(y=y.tolist()[:8], y_hat=yh.tolist()[:8]))
+
+
 def run(ctx):
     rng = ctx.rng
     for _ in range(400 if ctx.tier == 'quick' else 8000):
@@ -245,6 +285,11 @@ def run(ctx):
             off = rng.choice([2.0 ** 20, 2.0 ** 26, 2.0 ** 33, 2.0 ** 40])       # up to epoch-seconds / byte-offset sized base lines
             y, yh, fam = y + off, yh + off, fam + '@yoff'                        # large base line, small swing: R2 needs the centred sums
         one(ctx, y, yh, x, fam)
+        if rng.random() < 0.3:
+            # the integral part of the same vectors as raw counts, half of the time byte-count sized (k * 2^33)
+            mul = rng.choice([1.0, 2.0 ** 33])
+            xi_ = np.cumsum([rng.choice([1, 2, 3]) for _ in range(n)]).astype(float)
+            int_same(ctx, np.floor(np.abs(y) % 4096) * mul, np.floor(np.abs(yh) % 4096) * mul, xi_, fam.split('@')[0])
         if rng.random() < 0.35:
             # signed vectors: opposite signs at some positions, a fitted line that crosses zero while the data do not, all-negative data
             sy = np.array([rng.choice([1, 1, -1]) for _ in range(n)], float)
@@ -260,6 +305,9 @@ def run(ctx):
 
 def replay(ctx, body):
     c = body['case']
+    if c.get('int_dtype'):
+        int_same(ctx, np.array(c['y'], float), np.array(c['y_hat'], float), np.array(c['x'], float), 'replay')
+        return
     if c.get('signed'):
         one_signed(ctx, np.array(c['y'], float), np.array(c['y_hat'], float), 'replay')
         return
